@@ -121,6 +121,15 @@ def build(wb: WB, spec: dict):
         o = wb.job({"x": e}, op="inc", name="/sj")
         wb.out("o", wb.gather(o, sz))
         return {"o": inc(vals)}
+    if k == "twobranch":  # two scattered job branches joined by a two-input transformer (no combinator)
+        vals = list(range(spec["n"]))
+        p = wb.inp("a", vals)
+        e, sz = wb.scatter(p)
+        ja = wb.job({"x": e}, op="inc", name="/ba")
+        jb = wb.job({"x": e}, op="copy", name="/bb")
+        m = _merge(wb, {"a": ja, "b": jb}, "sum")
+        wb.out("o", wb.gather(m, sz))
+        return {"o": [2 * v + 1 for v in vals]}
     if k == "fixeddirs":  # scattered jobs whose binding fixes the three directories explicitly
         vals = list(range(spec["n"]))
         p = wb.inp("a", vals)
@@ -196,8 +205,19 @@ def program_jobs(spec):
         return [f"/sj/0.{i}" for i in range(spec["n"])]
     if k == "twojobs":
         return ["/A/0", "/B/0", "/C/0", "/D/0"]
+    if k == "twobranch":  # two scattered job branches joined by a two-input transformer (no combinator)
+        vals = list(range(spec["n"]))
+        p = wb.inp("a", vals)
+        e, sz = wb.scatter(p)
+        ja = wb.job({"x": e}, op="inc", name="/ba")
+        jb = wb.job({"x": e}, op="copy", name="/bb")
+        m = _merge(wb, {"a": ja, "b": jb}, "sum")
+        wb.out("o", wb.gather(m, sz))
+        return {"o": [2 * v + 1 for v in vals]}
     if k == "fixeddirs":
         return [f"/fx/0.{i}" for i in range(spec["n"])]
+    if k == "twobranch":
+        return [f"/ba/0.{i}" for i in range(spec["n"])] + [f"/bb/0.{i}" for i in range(spec["n"])]
     if k == "seq_job_scatterjobs":
         return ["/A/0"] + [f"/B/0.{i}" for i in range(spec["n"])] + ["/C/0"]
     if k == "loopjob":
@@ -324,7 +344,7 @@ def catalogue(tier):
         {"prog": "cond", "n": 2, "pred": "true"},
         {"prog": "jobs", "k": 1}, {"prog": "jobs", "k": 2},
         {"prog": "scatterjobs", "n": 2}, {"prog": "scatterjobs", "n": 3},
-        {"prog": "twojobs"},
+        {"prog": "twojobs"}, {"prog": "twobranch", "n": 2},
         {"prog": "loop", "pred": "false"}, {"prog": "loop", "pred": "lt1"}, {"prog": "loop", "pred": "lt3"},
         {"prog": "loop", "pred": "lt3", "method": "all"}, {"prog": "loop", "pred": "false", "method": "all"},
         {"prog": "scatterloop", "starts": [0, 2], "pred": "lt3"},
@@ -350,6 +370,7 @@ def catalogue(tier):
         {"prog": "loopjob", "pred": "lt3"}, {"prog": "loopjob", "pred": "false"},
         {"prog": "loopjob", "pred": "lt3", "method": "all"},
         {"prog": "seq_scatter_pipeline", "n": 3}, {"prog": "seq_job_scatterjobs", "n": 2},
+        {"prog": "twobranch", "n": 3},
     ]
     return t
 
